@@ -53,19 +53,28 @@ CLAIMED = {
    "(compile env, run env) pairs.",
    TB + BS, TECHB),
  "C08": ("other",
-   "Deductive (all inputs): pos.Range span contract (start of first token, end of last, line/col of the first; fails iff reversed). "
-   "The Pratt core (binding powers, associativity, non-associativity) is outside the verified subset (function tables, recover-based "
-   "backtracking): bounded stand-in against a reference precedence parser over operator tables x token strings x parenthesisations.",
+   "Deductive (all inputs, all operator tables): pos.Range span contract; the associativity encoding of the parselets - binaryL / "
+   "binaryN / unaryPrefix hand down exactly their own binding power, binaryR and the else-branch of ?: hand down the immediate "
+   "float32 predecessor of bp (rbp < bp and no power strictly between, i.e. l > rbp <=> l >= bp; math.Nextafter32 modelled exactly "
+   "on the IEEE bit pattern); the Pratt loop calls a led only for a token whose left binding power exceeds rbp; every node built in "
+   "the loop passes infixNCheck, which fails exactly on a non-associative operator chained with itself; node kind / operator name / "
+   "operand / span of each parselet. The recursion p.expr goes through function tables and recover-based backtracking and is "
+   "ASSUMED (trusted contract): whole-parser behaviour is covered by the bounded stand-in against a reference precedence parser.",
    TB + BS + "Parser core not under contract.", TECHB),
  "C09": ("other",
-   "Deductive (all inputs): (*Pos).Move cursor contract (index +1, newline resets column and bumps line). Lexer loop and regexp rules "
-   "are outside the verified subset: bounded stand-in against a reference maximal-munch lexer (all strings <= 4 over a 14-character "
-   "alphabet x 6 operator sets, random longer).",
+   "Deductive (all inputs, all rule sets): (*Pos).Move cursor contract; skipSpace skips exactly a maximal run of white space; "
+   "next returns EOF only at the end of input, otherwise a token that starts at the first non-space rune at or after the previous "
+   "position, with Idx <= IdxEnd == the new cursor and only white space in between (the index-level half of 'tokens partition the "
+   "input'). Assumed: a rule's match function has no effect on the lexer. Rule bodies (regexp, longest match, whole-word tests) "
+   "and line/column over whole inputs: bounded stand-in against a reference maximal-munch lexer.",
    TB + BS + "Lexer rules (regexp) not under contract.", TECHB),
  "C10": ("other",
-   "Deductive: frame scan obligations - the structural fields of AST nodes are written only by their constructors (so Desugar leaves the "
-   "original tree untouched; slice elements of Args/Elems included). Desugar's functional contract (core forms, idempotence, order) is "
-   "not under contract yet: bounded stand-in (tree laws + sugared vs explicit evaluation). Known finding F20 is open.",
+   "Deductive (all well-formed parser trees, unbounded - induction through the recursive calls): Desugar returns a tree of core "
+   "forms only (core), which is the explicit-call form of its input (dsg: unary/binary/?: become calls with the operands in source "
+   "order, o.f(args) becomes f(o, args) with the receiver first, parentheses disappear, every other node is copied with its "
+   "positions and debug columns), writes nothing that existed before the call (frame obligation) and the structural fields of AST "
+   "nodes are written only by constructors (scan). The semantic half (sugared and explicit notation evaluate alike) and idempotence: "
+   "bounded stand-in. Known finding F20 is open.",
    TB + BS, TECHB),
  "C11": ("other",
    "Deductive (all inputs): operand codec round trip (uint16ToByte/byteToUInt16, emitUint16/readUint16), emitters append exactly the "
@@ -114,9 +123,13 @@ CLAIMED = {
    "with normal evaluation: bounded stand-in (Debug vs Eval, record entries via a read-only hook, renderer robustness).",
    TB + BS, TECHB),
  "C20": ("other",
-   "No function of ext/sql is under contract yet; the property is checked only by the bounded stand-in (criteria trees to depth 3, "
-   "adversarial operand strings, output re-read by a reference SQL boolean reader). Claimed at the bounded level only.",
-   TB + BS, "labelled bounded stand-in of the contract (run-time contract checking over an enumerated space); no deductive obligation yet"),
+   "Deductive (all inputs): sql.compile - where the closure of a call node is created, parentheses are present whenever the call is "
+   "a logical connective that binds looser in SQL (NOT > AND > OR) than the enclosing one, only logical connectives are ever "
+   "parenthesised, every child is compiled with its parent's table power, and the table maps exactly AND / OR / NOT to the powers "
+   "whose order is the SQL order (package initialiser verified; the table is frozen afterwards - scan); fmtVal - bool -> 1/0, string "
+   "-> strconv.Quote, integral in-range number -> integer text, other numbers -> float text, fails exactly on other types. "
+   "strconv.Quote itself (one literal, nothing escapes) is an assumption. Whole criteria trees and adversarial strings: bounded stand-in.",
+   TB + BS, TECHB),
 }
 CLAIMED["C14"] = ("other",
    "PARTIAL. Deductive (scan obligations over go/ssa, functions reachable from the API): footprint condition only - every write to "
